@@ -407,6 +407,10 @@ func drive(args []string) int {
 			for try := 0; try < 3 && !forcedSelectRace(out, hook, i%2 == 1); try++ {
 			}
 		}
+		for i := 0; i < *reps; i++ {
+			for try := 0; try < 3 && !forcedStaleTick(out, hook); try++ {
+			}
+		}
 		for try := 0; try < 3 && !forcedAddWindow(out, hook); try++ {
 		}
 		for try := 0; try < 3 && !forcedReplaceWhileStarting(out, hook); try++ {
@@ -480,6 +484,22 @@ func forcedSelectRace(out *output, hook *sched.Gate, ignore bool) bool {
 	} else {
 		r.sleepUntil(r.maxAt + unit/4)
 	}
+	hook.ReleaseAll()
+	return r.finish(out)
+}
+
+// forcedStaleTick: the worker has popped a due-soon element X and is parked right before its select; a second element Y is
+// queued for much later; X is cancelled and its time passes (cancel and timer are both ready when the worker goes on: the
+// select picks one at random, hence the repetitions).  Whichever way X is dropped, Y must not be delivered before its time.
+func forcedStaleTick(out *output, hook *sched.Gate) bool {
+	r := newRun("forced-stale-tick", "exec", 1, 0)
+	hook.Hold("poll-before-select")
+	k := r.add(0, r.since()+unit, false, 0)
+	waitParked(hook, "poll-before-select")
+	hook.Free("poll-before-select") // (only this visit is held: the worker's next look at the queue passes)
+	r.add(0, r.since()+8*unit, false, 0)
+	r.cancel(k)
+	time.Sleep(unit + unit/4) // X's time has passed: its timer has fired
 	hook.ReleaseAll()
 	return r.finish(out)
 }
